@@ -47,6 +47,12 @@ CLAIMED["C03"] = dict(
    text="Generated print/control histories are written through consoles of two colour systems in sequence with shared Style objects; the emitted characters are decoded by a hand-written SGR/OSC-8 interpreter and compared per character (attributes, fg, bg after down-conversion, link), plus the no-escape / no-colour / no-control stream clauses and the no-leak final state.",
    note="Down-conversion itself is trusted here (C18 checks it); segment text has no ESC/C0 controls; console 1000 cells wide so no wrapping.",
    ref="5 C03")
+CLAIMED["C20"] = dict(
+   technique="model-based Hypothesis testing: nested push/pop/use_theme histories (with exceptions) against a reference stack of (definitions, inherit); config-text round trip",
+   level="exploration",
+   text="Generated histories of push_theme/pop_theme/nested use_theme blocks (normal and exceptional exit) are executed on a real Console and on a reference stack; after every step all pool names, style definitions and unparseable names are looked up and compared, popping the base must raise and change nothing; Theme.config is read back with from_file for generated themes.",
+   note="Names follow the documented grammar; DEFAULT_STYLES is the reference for built-in names; use_theme bodies are kept balanced so that each block's pop matches its own push.",
+   ref="5 C20")
 NOT_YET = {}
 props = [json.loads(l) for l in open(os.path.join(V, "properties.jsonl"))]
 checks = []
